@@ -110,12 +110,15 @@ def main():
     ap.add_argument('--seed', type=int, default=0)
     ap.add_argument('--files', default=','.join(PROPS))
     ap.add_argument('--out', default='/tmp/model_mutants.json')
+    ap.add_argument('--no-controls', action='store_true', help='leave out the two rules that produce equivalent mutants (controls)')
     a = ap.parse_args()
     rnd = random.Random(a.seed)
     allsites = []
     for f in a.files.split(','):
         _src, ss = sites(f'{VERIF}/lean/PyTRS/Model/{f}.lean')
         allsites += [(f,) + s for s in ss]
+    if a.no_controls:
+        allsites = [x for x in allsites if '++ [] ++' not in RULES[x[3]][1] and 'if true then' not in RULES[x[3]][1]]
     rnd.shuffle(allsites)
     chosen = allsites[:a.n]
     results = []
